@@ -65,8 +65,13 @@ def check (input impl : String) : Verdict :=
     | some params0 =>
       let params := params0.map (fun kv => (kv.1, unTilde kv.2))
       let m := checkConfig params
-      let sp := if (impl == "ok") == specCheck params then none else some (if impl == "ok" then "invalid-config-accepted" else "valid-config-rejected")
-      { model := if m then "ok" else "err", spec := sp, tags := [if m then "check-ok" else "check-err"] }
+      -- the lag the source will run with: the configured value, or the int64 default when the key is absent or empty
+      let given := ((params.find? (fun kv => kv.1 == "maxpartitionlag")).map (·.2)).getD ""
+      let ml := if given == "" then "9223372036854775807" else given
+      let accepted := impl.startsWith "ok"
+      let sp := if accepted != specCheck params then some (if accepted then "invalid-config-accepted" else "valid-config-rejected")
+                else if accepted && impl != s!"ok ml={ml}" then some "configured-maxpartitionlag-not-in-effect" else none
+      { model := if m then s!"ok ml={ml}" else "err", spec := sp, tags := [if m then "check-ok" else "check-err"] }
   | ["int", req, present, value, dflt, mn, mx] =>
     match dflt.toInt?, mn.toInt?, mx.toInt? with
     | some d, some mn, some mx =>
